@@ -17,6 +17,12 @@ import EncodingRs.Thm.C10Full
   condition), `dref_length_le`: `|dref d stream| ≤ |stream| + withheld + 5`.
 * **`life_caller_loop_bound`**: from `Decoder.new`, all 40 encodings, three BOM modes:
   `calls ≤ bytes + chunks + 6`.
+* `DLifeLoopPre` (every prefix of a run; no constructor requires that the call that ends the stream is
+  ever reached), `life_prefix_calls_le_events`, **`life_caller_loop_prefix_bound`**,
+  **`life_caller_loop_terminates`**: no prefix of a run has more than `bytes + chunks + 6` calls — the
+  loop cannot go on for ever.  The theorems about complete loops are corollaries.
+* Non-vacuity: a four-call run (Shift_JIS, sniffing, `FE 41 42 43 B1`) through a withheld byte, a
+  `Malformed` replay, an admissible `OutputFull` and the final call, and a proper prefix of it.
 -/
 namespace EncodingRs.Thm.C08Loop
 open EncodingRs EncodingRs.Model EncodingRs.Lemmas.Core EncodingRs.Lemmas.FamLaws EncodingRs.Lemmas.Life
@@ -155,14 +161,82 @@ theorem life_evs_pos {F : Fam} (hnb : NeedsBounded F) (k : Sink) (d : Decoder F)
     simp only [List.length_append, List.length_map]
     omega
 
-/-- calls ≤ (characters + errors the documented BOM semantics says the stream denotes) + chunks + 1 -/
-theorem life_calls_le_events (v : Gen.Variant) (d : Decoder (famOfVariant v)) (stream : List Nat) (n c : Nat)
-    (h : DLifeLoop d stream n c) :
+/-- **every prefix of a run of the caller loop over the public `Decoder`** (without replacement):
+`DLifeLoop` without the requirement that the run is complete — `start` ends a derivation anywhere, so a
+loop that never reached the call that ends the stream would have a derivation for every `n` -/
+inductive DLifeLoopPre {F : Fam} : Decoder F → List Nat → Nat → Nat → Prop
+  | start (d : Decoder F) (stream : List Nat) : DLifeLoopPre d stream 0 0
+  | final (k : Sink) (d : Decoder F) (rem : List Nat) (b1 b2 : Budget) (read : Nat) (out : List Nat)
+      (d' : Decoder F) (inner : List (List Nat × Res × Nat)) :
+      d.rawCall k rem true b1 b2 = .ok .inputEmpty read out d' inner → DLifeLoopPre d rem 1 0
+  | lastStep (k : Sink) (d : Decoder F) (rem : List Nat) (b1 b2 : Budget) (res : Res) (read : Nat) (out : List Nat)
+      (d' : Decoder F) (inner : List (List Nat × Res × Nat)) (cap n c : Nat) :
+      d.rawCall k rem true b1 b2 = .ok res read out d' inner → res ≠ .inputEmpty → minCap k ≤ cap →
+      InnerAdmissible k cap inner → DLifeLoopPre d' (rem.drop read) n c → DLifeLoopPre d rem (n + 1) c
+  | chunkDone (k : Sink) (d : Decoder F) (src rest : List Nat) (b1 b2 : Budget) (read : Nat) (out : List Nat)
+      (d' : Decoder F) (inner : List (List Nat × Res × Nat)) (n c : Nat) :
+      d.rawCall k src false b1 b2 = .ok .inputEmpty read out d' inner →
+      DLifeLoopPre d' (src.drop read ++ rest) n c → DLifeLoopPre d (src ++ rest) (n + 1) (c + 1)
+  | chunkStep (k : Sink) (d : Decoder F) (src rest : List Nat) (b1 b2 : Budget) (res : Res) (read : Nat)
+      (out : List Nat) (d' : Decoder F) (inner : List (List Nat × Res × Nat)) (cap n c : Nat) :
+      d.rawCall k src false b1 b2 = .ok res read out d' inner → res ≠ .inputEmpty → minCap k ≤ cap →
+      InnerAdmissible k cap inner → DLifeLoopPre d' (src.drop read ++ rest) n c →
+      DLifeLoopPre d (src ++ rest) (n + 1) c
+
+theorem DLifeLoop.toPre {F : Fam} {d : Decoder F} {stream : List Nat} {n c : Nat} (h : DLifeLoop d stream n c) :
+    DLifeLoopPre d stream n c := by
+  induction h with
+  | final k d rem b1 b2 read out d' inner hcall => exact .final k d rem b1 b2 read out d' inner hcall
+  | lastStep k d rem b1 b2 res read out d' inner cap n c hcall hne hcap hadm _ ih =>
+    exact .lastStep k d rem b1 b2 res read out d' inner cap n c hcall hne hcap hadm ih
+  | chunkDone k d src rest b1 b2 read out d' inner n c hcall _ ih =>
+    exact .chunkDone k d src rest b1 b2 read out d' inner n c hcall ih
+  | chunkStep k d src rest b1 b2 res read out d' inner cap n c hcall hne hcap hadm _ ih =>
+    exact .chunkStep k d src rest b1 b2 res read out d' inner cap n c hcall hne hcap hadm ih
+
+theorem DLifeLoopPre.prefix_closed {F : Fam} {d : Decoder F} {stream : List Nat} {n c : Nat}
+    (h : DLifeLoopPre d stream n c) : ∀ m, m ≤ n → ∃ c', c' ≤ c ∧ DLifeLoopPre d stream m c' := by
+  induction h with
+  | start d stream => intro m hm; exact ⟨0, Nat.le_refl _, by have : m = 0 := by omega
+                                                              subst this; exact .start d stream⟩
+  | final k d rem b1 b2 read out d' inner hcall =>
+    intro m hm
+    cases m with
+    | zero => exact ⟨0, Nat.le_refl _, .start d rem⟩
+    | succ m => have : m = 0 := by omega
+                subst this; exact ⟨0, Nat.le_refl _, .final k d rem b1 b2 read out d' inner hcall⟩
+  | lastStep k d rem b1 b2 res read out d' inner cap n c hcall hne hcap hadm _ ih =>
+    intro m hm
+    cases m with
+    | zero => exact ⟨0, Nat.zero_le _, .start d rem⟩
+    | succ m =>
+      obtain ⟨c', hc', h'⟩ := ih m (by omega)
+      exact ⟨c', hc', .lastStep k d rem b1 b2 res read out d' inner cap m c' hcall hne hcap hadm h'⟩
+  | chunkDone k d src rest b1 b2 read out d' inner n c hcall _ ih =>
+    intro m hm
+    cases m with
+    | zero => exact ⟨0, Nat.zero_le _, .start d (src ++ rest)⟩
+    | succ m =>
+      obtain ⟨c', hc', h'⟩ := ih m (by omega)
+      exact ⟨c' + 1, by omega, .chunkDone k d src rest b1 b2 read out d' inner m c' hcall h'⟩
+  | chunkStep k d src rest b1 b2 res read out d' inner cap n c hcall hne hcap hadm _ ih =>
+    intro m hm
+    cases m with
+    | zero => exact ⟨0, Nat.zero_le _, .start d (src ++ rest)⟩
+    | succ m =>
+      obtain ⟨c', hc', h'⟩ := ih m (by omega)
+      exact ⟨c', hc', .chunkStep k d src rest b1 b2 res read out d' inner cap m c' hcall hne hcap hadm h'⟩
+
+/-- at no point of the loop: calls so far ≤ (characters + errors the documented BOM semantics says the
+stream denotes) + chunks + 1 -/
+theorem life_prefix_calls_le_events (v : Gen.Variant) (d : Decoder (famOfVariant v)) (stream : List Nat) (n c : Nat)
+    (h : DLifeLoopPre d stream n c) :
     ∀ pos, withheld d.life ≤ pos → LifeInv v d → PendInv d → (∀ x ∈ stream, x < 256) →
       n ≤ (dref d stream pos).length + c + 1 := by
   have hnb := famOfVariant_needsBounded v
   have H := famBB_variant v
   induction h with
+  | start d stream => intro pos _ _ _ _; omega
   | final k d rem b1 b2 read out d' inner hcall => intro pos _ _ _ _; omega
   | lastStep k d rem b1 b2 res read out d' inner cap n c hcall hne hcap hadm _ ih =>
     intro pos hw hd hp hb
@@ -209,6 +283,14 @@ theorem life_calls_le_events (v : Gen.Variant) (d : Decoder (famOfVariant v)) (s
     rw [← hs.1]
     simp only [List.length_append] at hev ⊢
     omega
+
+/-- calls ≤ (characters + errors the documented BOM semantics says the stream denotes) + chunks + 1
+(a complete run is a prefix: `life_prefix_calls_le_events`) -/
+theorem life_calls_le_events (v : Gen.Variant) (d : Decoder (famOfVariant v)) (stream : List Nat) (n c : Nat)
+    (h : DLifeLoop d stream n c) :
+    ∀ pos, withheld d.life ≤ pos → LifeInv v d → PendInv d → (∀ x ∈ stream, x < 256) →
+      n ≤ (dref d stream pos).length + c + 1 :=
+  life_prefix_calls_le_events v d stream n c h.toPre
 
 /-! ### `dref` is linear in the stream -/
 
@@ -332,5 +414,86 @@ theorem life_caller_loop_bound (v : Gen.Variant) (bom : BomHandling) (stream : L
     (pendInv_new _ bom) stream hb n c h
   rw [withheld_new] at this
   omega
+
+/-- **C08 through the BOM life cycle, prefixes of runs**: at no point of the caller loop has it made
+more than `bytes + withheld + chunks + 6` calls -/
+theorem life_caller_loop_prefix_bound_from (v : Gen.Variant) (d : Decoder (famOfVariant v)) (pos : Nat)
+    (hw : withheld d.life ≤ pos) (hd : LifeInv v d) (hp : PendInv d) (stream : List Nat)
+    (hb : ∀ x ∈ stream, x < 256) (n c : Nat) (h : DLifeLoopPre d stream n c) :
+    n ≤ stream.length + withheld d.life + c + 6 := by
+  have h1 := life_prefix_calls_le_events v d stream n c h pos hw hd hp hb
+  have h2 := dref_length_le v d hd.cur stream hb pos
+  omega
+
+/-- from `new_decoder*`: at no point more than `bytes + chunks + 6` calls -/
+theorem life_caller_loop_prefix_bound (v : Gen.Variant) (bom : BomHandling) (stream : List Nat)
+    (hb : ∀ x ∈ stream, x < 256) (n c : Nat)
+    (h : DLifeLoopPre (Decoder.new (famOfVariant v) (nominalOf v) bom) stream n c) :
+    n ≤ stream.length + c + 6 := by
+  have := life_caller_loop_prefix_bound_from v _ 0 (by rw [withheld_new]; exact Nat.le_refl _) (lifeInv_new v bom)
+    (pendInv_new _ bom) stream hb n c h
+  rw [withheld_new] at this
+  omega
+
+/-- **termination, all 40 encodings, the three BOM modes, from `new_decoder*`**: there is no prefix of
+a run of the documented caller loop with more than `bytes + chunks + 6` calls — the loop cannot go on
+for ever (every prefix of an infinite run would be derivable: `DLifeLoopPre.prefix_closed`, `start`) -/
+theorem life_caller_loop_terminates (v : Gen.Variant) (bom : BomHandling) (stream : List Nat)
+    (hb : ∀ x ∈ stream, x < 256) :
+    ¬ ∃ n c, stream.length + c + 6 < n ∧
+      DLifeLoopPre (Decoder.new (famOfVariant v) (nominalOf v) bom) stream n c := by
+  intro ⟨n, c, hlt, h⟩
+  have := life_caller_loop_prefix_bound v bom stream hb n c h
+  omega
+
+/-! ### Non-vacuity
+
+Shift_JIS with BOM sniffing, stream `FE 41 42 43 B1`, four-byte UTF-8 destinations (the documented
+minimum), four calls:
+
+1. `[FE]`, not last → `InputEmpty`, `read = 1`, the byte is withheld (`SeenUtf16BeFirst`);
+2. `[41 42 43 B1]`, last → the replay of `FE` gives `Malformed(1, 0)`, `read = 0`;
+3. the same source, last, stopped by an admissible `OutputFull` after `A B C` (3 bytes written, 3 asked
+   for, 4 available), `read = 3`;
+4. `[B1]`, last → `InputEmpty` (U+FF71), the decoder is `Finished`.
+
+Every `rawCall` equation holds by `rfl`; `4 ≤ 5 + 1 + 6`. -/
+section demo
+private def vS : Gen.Variant := .shiftJis
+private def dS0 : Decoder (famOfVariant vS) := Decoder.new (famOfVariant vS) (nominalOf vS) .sniff
+private def dS1 : Decoder (famOfVariant vS) := ⟨.seenUtf16BeFirst, .nominal none⟩
+private def dS2 : Decoder (famOfVariant vS) := ⟨.converting, .nominal none⟩
+private def dS3 : Decoder (famOfVariant vS) := ⟨.finished, .nominal none⟩
+
+private theorem hS1 : dS0.rawCall .utf8 [0xFE] false .unlimited .unlimited = .ok .inputEmpty 1 [] dS1 [] := rfl
+private theorem hS2 : dS1.rawCall .utf8 [0x41, 0x42, 0x43, 0xB1] true .unlimited .unlimited
+    = .ok (.malformed 1 0) 0 [] dS2 [([], .malformed 1 0, 0)] := rfl
+private theorem hS3 : dS2.rawCall .utf8 [0x41, 0x42, 0x43, 0xB1] true .unlimited (.full 3)
+    = .ok .outputFull 3 [0x41, 0x42, 0x43] dS2 [([0x41, 0x42, 0x43], .outputFull, 3)] := rfl
+private theorem hS4 : dS2.rawCall .utf8 [0xB1] true .unlimited .unlimited
+    = .ok .inputEmpty 1 [0xFF71] dS3 [([0xFF71], .inputEmpty, 0)] := rfl
+
+private theorem admS2 : InnerAdmissible .utf8 4 [(([] : List Nat), Res.malformed 1 0, 0)] :=
+  (innerAdmissibleB_iff .utf8 _ 4).1 (by decide)
+private theorem admS3 : InnerAdmissible .utf8 4 [([0x41, 0x42, 0x43], Res.outputFull, 3)] :=
+  (innerAdmissibleB_iff .utf8 _ 4).1 (by decide)
+
+/-- the complete run: four calls, one completely pushed chunk -/
+example : DLifeLoop dS0 [0xFE, 0x41, 0x42, 0x43, 0xB1] 4 1 :=
+  DLifeLoop.chunkDone .utf8 dS0 [0xFE] [0x41, 0x42, 0x43, 0xB1] .unlimited .unlimited 1 [] dS1 [] 3 0 hS1
+    (DLifeLoop.lastStep .utf8 dS1 [0x41, 0x42, 0x43, 0xB1] .unlimited .unlimited (.malformed 1 0) 0 [] dS2 _ 4 2 0
+      hS2 (by intro h; cases h) (by decide) admS2
+      (DLifeLoop.lastStep .utf8 dS2 [0x41, 0x42, 0x43, 0xB1] .unlimited (.full 3) .outputFull 3 [0x41, 0x42, 0x43]
+        dS2 _ 4 1 0 hS3 (by intro h; cases h) (by decide) admS3
+        (DLifeLoop.final .utf8 dS2 [0xB1] .unlimited .unlimited 1 [0xFF71] dS3 _ hS4)))
+
+/-- a proper prefix of it: three calls made, the stream not finished -/
+example : DLifeLoopPre dS0 [0xFE, 0x41, 0x42, 0x43, 0xB1] 3 1 :=
+  DLifeLoopPre.chunkDone .utf8 dS0 [0xFE] [0x41, 0x42, 0x43, 0xB1] .unlimited .unlimited 1 [] dS1 [] 2 0 hS1
+    (DLifeLoopPre.lastStep .utf8 dS1 [0x41, 0x42, 0x43, 0xB1] .unlimited .unlimited (.malformed 1 0) 0 [] dS2 _ 4 1 0
+      hS2 (by intro h; cases h) (by decide) admS2
+      (DLifeLoopPre.lastStep .utf8 dS2 [0x41, 0x42, 0x43, 0xB1] .unlimited (.full 3) .outputFull 3
+        [0x41, 0x42, 0x43] dS2 _ 4 0 0 hS3 (by intro h; cases h) (by decide) admS3 (DLifeLoopPre.start _ _)))
+end demo
 
 end EncodingRs.Thm.C08Loop
